@@ -36,6 +36,7 @@ def strategy(draw, tier):
     case['c_exp'] = draw(st.sampled_from([-4, -3, -2, -1, 1, 2, 3, 4]))
     case['reuse_options'] = draw(st.integers(0, 2)) == 0
     case['inplace'] = draw(st.integers(0, 2)) == 0
+    case['reuse_table'] = draw(st.booleans())
     return case
 
 
@@ -104,6 +105,19 @@ def check(case, rec):
             buf *= a
             second = guarded(compute_features, buf, case['fs'], tuple(case['f_range']), **gen.cf_kwargs(case))
         compare('amplitude-in-place', first, second, a)
+    if cb['method'] == 'amp' and case.get('reuse_table'):
+        # a cycle table holds sample indices only, so it is unit free: the burst features computed from it under both
+        # unit conventions must coincide
+        import warnings
+        from bycycle.features import compute_shape_features, compute_burst_features
+        with warnings.catch_warnings():
+            warnings.simplefilter('ignore')
+            shp = guarded(compute_shape_features, x.copy(), cb['fs'], tuple(cb['f_range']), center_extrema=cb['center'],
+                          find_extrema_kwargs=gen.copy_json(cb.get('fek')))
+            bk = gen.cf_kwargs(cb)['burst_kwargs'] or {}
+            one = guarded(compute_burst_features, shp, x.copy(), burst_method='amp', burst_kwargs=dict(bk, fs=cb['fs'], f_range=tuple(cb['f_range'])))
+            two = guarded(compute_burst_features, shp, x.copy(), burst_method='amp', burst_kwargs=dict(bk, fs=cs['fs'], f_range=tuple(cs['f_range'])))
+        compare('rate-reused-table', one, two, 1)
     if case.get('reuse_options'):
         # a caller who keeps ONE set of option dictionaries and analyses the same samples under both unit conventions
         import warnings
